@@ -1159,6 +1159,7 @@ func (e *Enc) instr(ins ssa.Instruction) {
 		vv := e.val(x.Value)
 		e.oblige("mapnil", descOf(e.exprText(x.Map, x)), "", x.Pos(), e.guardGoal(app("distinct", m.T, "nil")))
 		e.lockCheckMap(x.Map, true, x.Pos())
+		e.globalMapWriteCheck(x.Map, x.Pos())
 		e.heapSort["$s:map"] = "Int"
 		h.m["$s:map"] = e.fresh("mapver", "Int")
 		e.assert(implies(e.reach[e.curBlock], and(app("=", e.mapGet(h, m, kv, vv.S), vv.T), e.mapHas(h, m, kv))))
@@ -2025,6 +2026,32 @@ func (e *Enc) mapHas(h *Heap, m, k Val) string {
 	}
 	e.heapSort["$s:map"] = "Int"
 	return app(fn, m.T, k.T, e.heapGet(h, "$s:map", "Int"))
+}
+
+// globalMapWriteCheck: an insertion into or deletion from a map that is (a field/element of) a package-level variable.
+// Outside package initialisers this is shared mutable state, exactly like a store (class `globalwrite`, property C18).
+func (e *Enc) globalMapWriteCheck(m ssa.Value, pos token.Pos) {
+	if e.fn.Name() == "init" && e.fn.Synthetic != "" {
+		return
+	}
+	u, ok := m.(*ssa.UnOp)
+	if !ok || u.Op != token.MUL {
+		return
+	}
+	v := u.X
+	for depth := 0; depth < 8; depth++ {
+		switch x := v.(type) {
+		case *ssa.Global:
+			e.oblige("globalwrite", descOf(x.Name()), "", pos, not(e.reach[e.curBlock]))
+			return
+		case *ssa.FieldAddr:
+			v = x.X
+		case *ssa.IndexAddr:
+			v = x.X
+		default:
+			return
+		}
+	}
 }
 
 // globalWriteCheck: a store whose address is (a field/element of) a package-level variable. Outside package initialisers
